@@ -218,7 +218,7 @@ class L2Gen:
     def expr(self, d, fields_so_far):
         r = self.r
         x = r.random()
-        safe = ["child_index", "id", "o1"] + fields_so_far + self.vars
+        safe = ["child_index", "id", "o1"] + fields_so_far + self.vars + (["count"] if getattr(self, "count_name", False) else [])
         if d <= 0 or x < 0.3:
             return ["int", r.randint(0, 12)]
         if x < 0.55:
@@ -324,6 +324,12 @@ class L2Gen:
             nk = r.choice(L2_NICKS) if r.random() < 0.4 else None
             plan.append((t, nk))
         self.top_names = sorted({t for t, _ in plan} | {nk for _, nk in plan if nk})
+        # the built-in `count` (= the row id) read by formulas, in a quarter of the recipes; in half of those an
+        # OPTION named `count` is declared as well: an option is nearer than the row built-ins
+        self.count_name = r.random() < 0.25
+        count_option = self.count_name and r.random() < 0.5
+        if count_option:
+            self.features.add("option-named-like-builtin")
         sts = []
         for t, nk in plan:
             if r.random() < 0.12:
@@ -332,7 +338,8 @@ class L2Gen:
             self.created_before.append(t)
             if nk:
                 self.created_before.append(nk)
-        return {"version": r.choice([2, 3]), "options": [["o1", r.choice([1, 2, 3])]], "statements": sts}
+        opts = [["o1", r.choice([1, 2, 3])]] + ([["count", r.choice([5, 9])]] if count_option else [])
+        return {"version": r.choice([2, 3]), "options": opts, "statements": sts}
 
 
 def persist_case(rng):
